@@ -35,7 +35,8 @@ RULE = (
     "- fracture splitting of the intact Cartesian host and fracture grids by meshing.subdomains_to_mdg (the md-grid's "
     "subdomains must be the very objects passed in), reversal of the orientation of all faces (g.cell_faces = "
     "-g.cell_faces), replacement of the object's topology by that of one of its subgrids followed by the documented "
-    "tag updates, or moving the nodes + compute_geometry - and the full oracle is evaluated again against the object "
+    "tag updates, or moving the nodes + compute_geometry; Grid.copy() taken before the splitting / before "
+    "set_periodic_map on the other grid must stay consistent with its own incidence (copies are independent) - and the full oracle is evaluated again against the object "
     "as it stands (no stale derived data). "
     "Exact integer equality. Non-trivial = a grid with >= 2 cells and an internal "
     "face, or any fractured md-grid; distinct = hash of spec."
@@ -54,7 +55,7 @@ DESIGN_REF = "DESIGN.md section 4, C21"
 ASSUMPTIONS = ["scipy csc storage (indptr/indices/data) is the trusted representation of the incidence",
                "boundary-face queries use distinct face indices"]
 REQUIRED = {"src-plain": 0.2, "src-frac": 0.2, "src-hist": 0.1, "hist-split": 0.04, "hist-faces-split": 0.03,
-            "hist-flip": 0.01, "hist-shrink": 0.01, "hist-move": 0.01, "sub": 0.15, "dim1": 0.05, "dim2": 0.15, "dim3": 0.15,
+            "hist-copy-independent": 0.04, "hist-copy": 0.01, "hist-flip": 0.01, "hist-shrink": 0.01, "hist-move": 0.01, "sub": 0.15, "dim1": 0.05, "dim2": 0.15, "dim3": 0.15,
             "gdim0": 0.02, "gdim1": 0.1, "has-fracture-faces": 0.1, "has-internal-faces": 0.3,
             "query-permuted": 0.2, "frac-dim3": 0.03}
 
@@ -69,7 +70,7 @@ def _spec(draw, tier):
         s["frac"] = draw(frac_spec())
     else:
         # history on ONE grid object: query -> modify the object in place -> query again
-        s["mode"] = draw(st.sampled_from(["split", "split", "flip", "shrink", "move"]))
+        s["mode"] = draw(st.sampled_from(["split", "split", "flip", "shrink", "move", "copy"]))
         if s["mode"] == "split":
             s["frac"] = draw(frac_spec())
         elif s["mode"] == "flip":
@@ -247,6 +248,7 @@ def _check_history(spec, labels):
         for i, g in enumerate(objs):  # intact grids: tags as set by the constructors
             check_connectivity(g, q + i, set(), nodes_per_cell=(2 ** g.dim if g.dim > 0 else None))
         nf0 = [g.num_faces for g in objs]
+        copies = [g.copy() for g in objs]  # independent grids: splitting the originals must not reach them
         mdg = pp.meshing.subdomains_to_mdg(grids)  # splits faces and nodes of the very same objects
         sds = mdg.subdomains()
         require(len(sds) == len(objs) and all(any(sd is g for g in objs) for sd in sds), "hist-same-objects",
@@ -255,6 +257,9 @@ def _check_history(spec, labels):
             labels.add("hist-faces-split")
         for i, g in enumerate(objs):
             check_connectivity(g, q + 50 + i, labels, tagged_by_mdg=True, nodes_per_cell=(2 ** g.dim if g.dim > 0 else None))
+        for i, cp in enumerate(copies):
+            check_connectivity(cp, q + 70 + i, set(), nodes_per_cell=(2 ** cp.dim if cp.dim > 0 else None))
+        labels.add("hist-copy-independent")
         # geometry change on the same objects: topology queries are unaffected, and still consistent
         for i, g in enumerate(objs):
             if g.dim > 0:
@@ -267,6 +272,19 @@ def _check_history(spec, labels):
     labels.update(grid_meta(gs)["labels"])
     npc = _NODES_PER_CELL.get((gs["kind"], gs["dim"]))
     nint = check_connectivity(g, q, set(), nodes_per_cell=npc)
+    if mode == "copy":
+        # Grid.copy() gives an independent grid: a documented in-place change of the tags of one of the two
+        # (set_periodic_map clears domain_boundary_faces of the periodic faces) must not reach the other
+        bnd = np.flatnonzero(np.count_nonzero(dense_incidence(g), axis=1) == 1)
+        pair = np.array([[int(bnd[0])], [int(bnd[-1])]])
+        first, second = g.copy(), g.copy()
+        second.set_periodic_map(pair)
+        check_connectivity(g, q + 1, labels, nodes_per_cell=npc)
+        check_connectivity(first, q + 2, set(), nodes_per_cell=npc)
+        g.set_periodic_map(pair)
+        check_connectivity(first, q + 3, set(), nodes_per_cell=npc)
+        labels.add("hist-copy-independent")
+        return g.num_cells >= 2 and nint > 0
     if mode == "flip":
         # the opposite orientation convention of every face: assign the attribute, as split_grid does
         g.cell_faces = -g.cell_faces
